@@ -315,6 +315,9 @@ class Ctx:
         # runs against a scratch copy (VERIF_REPO, used for mutants and seeded changes) must not
         # overwrite the evidence of the real tree
         evdir = os.path.join(VERIF, "evidence") if REPO == "/repo" else os.path.join(VERIF, ".work", "evidence-scratch")
+        if not re.match(r"^C\d\d$", self.prop) and REPO == "/repo":
+            # extension plans (X..): growth of the specification beyond the listed properties
+            evdir = os.path.join(VERIF, "evidence-ext")
         os.makedirs(evdir, exist_ok=True)
         tmp = os.path.join(evdir, ".%s.%d.tmp" % (self.prop, os.getpid()))
         with open(tmp, "w") as fh:
